@@ -288,6 +288,16 @@ def run(ck):
         for k, lf in enumerate(leaves):
             lf['model'] = Probe(k, nl, 'onehot')
         tree.pop('_cache', None)
+        if ti % 2 == 1 and nl >= 3:
+            # history: the same estimator has already soft-routed a SMALLER tree (2 leaves) — an ensemble member or an earlier fit; its configuration (cap, keep
+            # fraction, temperature) is the caller's and applies unchanged to the bigger tree
+            small = build_tree(('L', 'L'), rng, d)
+            for k, lf in enumerate(orc.tree_leaves(small)):
+                lf['model'] = Probe(k, 2, 'onehot')
+            m.trees = [small]
+            m.predict(Xt)
+            m.trees = [tree]
+            ck.count('estimator soft-routed a 2-leaf tree before')
         Wfull = np.asarray(m.predict(Xt), dtype=np.float64)             # (rows, leaves): the untruncated weights
         desc = dict(tree=ti, T=T, rows=Xb.tolist(), depth=orc.tree_depth(tree), leaves=nl)
         ck.case(dict(desc, kind='weights'), nontrivial=nl >= 3, sample=(nl == 4))
